@@ -15,9 +15,11 @@ import (
 	"github.com/aergoio/aergo/v2/consensus/impl/dpos"
 	"github.com/aergoio/aergo/v2/consensus/impl/dpos/bp"
 	"github.com/aergoio/aergo/v2/consensus/impl/dpos/slot"
+	"github.com/aergoio/aergo/v2/internal/enc/proto"
 	"github.com/aergoio/aergo/v2/types"
 	"github.com/aergoio/aergo/v2/zz_verif/c09lib"
 	"github.com/aergoio/aergo/v2/zz_verif/vh"
+	"github.com/libp2p/go-libp2p/core/crypto"
 )
 
 var intervalsSec = []int64{1, 2, 3, 5}
@@ -207,6 +209,94 @@ func consensusChecks(run *vh.Run, pool []producer) {
 			run.Fail("DPoS.VerifySign differs from 'the signature verifies over the complete header with the key in the header'",
 				map[string]interface{}{"variant": v, "keyParses": j.Key != "-", "signature": j.Class, "accepted": verr == nil,
 					"header": fmt.Sprintf("%+v", h)})
+		}
+	}
+
+	// ---- DPoS.VerifySign is a function of the presented header, not of what was presented before: STATEFUL sequences on the one
+	// DPoS object d3. A received block carries its identifier (Block.Hash, never recomputed from the header): copies that keep
+	// the carried identifier of a block that verified, but differ in one signed field / the key / the signature, must get the
+	// verdict of the COPY; likewise in the reverse order, and when an outsider's validly self-signed block came first under
+	// the identifier a forged block then carries.
+	present := func(what string, blk *types.Block) {
+		j := c09lib.JudgeSig(blk.Header)
+		verr := d3.VerifySign(blk)
+		run.Op(fmt.Sprintf("vsign %s %s", j.Key, j.Class), fmt.Sprint(verr == nil), j.Key != "-")
+		run.Count(fmt.Sprintf("vsign-seq %s key=%v sig=%s accepted=%v", what, j.Key != "-", j.Class, verr == nil))
+		if (verr == nil) != j.OK() {
+			run.Fail("DPoS.VerifySign differs from 'the signature verifies over the complete header with the key in the header' for a header presented under the carried identifier of another block",
+				map[string]interface{}{"step": what, "keyParses": j.Key != "-", "signature": j.Class, "accepted": verr == nil,
+					"carriedHash": fmt.Sprintf("%x", blk.Hash), "header": fmt.Sprintf("%+v", blk.Header)})
+		}
+	}
+	signedFields := []string{"ChainID", "PrevBlockHash", "BlockNo", "Timestamp", "BlocksRootHash", "TxsRootHash", "ReceiptsRootHash",
+		"Confirms", "CoinbaseAccount", "Consensus"}
+	copyOf := func(b *types.Block, how string) *types.Block {
+		c := proto.Clone(b).(*types.Block) // keeps the carried Hash
+		switch how {
+		case "PubKey-other":
+			o := big[rng.Intn(len(big))]
+			pk, err := crypto.MarshalPublicKey(o.Priv.GetPublic())
+			if err != nil {
+				panic(err)
+			}
+			c.Header.PubKey = pk
+		case "Sign-flip":
+			c.Header.Sign = flip(c.Header.Sign, rng)
+		case "Sign-garbage":
+			c.Header.Sign = rng.Bytes(1 + rng.Intn(80))
+		case "Sign-empty":
+			c.Header.Sign = nil
+		default:
+			mutate(c.Header, how, rng)
+		}
+		return c
+	}
+	hows := append(append([]string{}, signedFields...), "PubKey", "PubKey-other", "Sign-flip", "Sign-garbage", "Sign-empty")
+	for i := 0; i < run.Pick(40, 400); i++ {
+		a := big[rng.Intn(len(big))]
+		b := &types.Block{Header: randHeader(rng), Body: &types.BlockBody{}}
+		if err := b.Sign(a.Priv); err != nil {
+			panic(err)
+		}
+		b.BlockHash() // from now on the block carries its identifier
+		switch i % 3 {
+		case 0: // genuine first, then every kind of copy, then the genuine block again
+			present("genuine", b)
+			for _, how := range hows {
+				present("copy-after-genuine "+how, copyOf(b, how))
+			}
+			present("genuine-again", b)
+		case 1: // copies first, then the genuine block, then copies again
+			for k := 0; k < 4; k++ {
+				present("copy-before-genuine", copyOf(b, hows[rng.Intn(len(hows))]))
+			}
+			present("genuine-after-copies", b)
+			for k := 0; k < 4; k++ {
+				present("copy-after-genuine", copyOf(b, hows[rng.Intn(len(hows))]))
+			}
+		default: // an outsider's own, validly signed block under identifier h; then a block naming another producer's key under h
+			h := rng.Bytes(32)
+			b.Hash = h
+			present("seed self-signed under h", b)
+			victim := big[rng.Intn(len(big))]
+			for victim.ID == a.ID {
+				victim = big[rng.Intn(len(big))]
+			}
+			f := &types.Block{Header: randHeader(rng), Body: &types.BlockBody{}, Hash: h}
+			pk, err := crypto.MarshalPublicKey(victim.Priv.GetPublic())
+			if err != nil {
+				panic(err)
+			}
+			f.Header.PubKey = pk
+			switch rng.Intn(3) {
+			case 0:
+				f.Header.Sign = b.Header.Sign
+			case 1:
+				f.Header.Sign = rng.Bytes(70)
+			default:
+				f.Header.Sign, _ = a.Priv.Sign(c09lib.SignedMessage(f.Header)) // signed by the outsider, in the victim's name
+			}
+			present("forged in another producer's name under h", f)
 		}
 	}
 
